@@ -75,6 +75,11 @@ def run(chk, replay=None):
             else:
                 ver = rng.choice(['1.0', '1.1'])
                 text = D.gen_doc(rng, imports=(ver == '1.1'), resets=False)
+                if rng.random() < 0.4:
+                    # a user-defined units whose name merely starts with / contains a 1.x spelling: it must keep its name
+                    mu = re.search(r'<units name="(u\d)"', text)
+                    if mu:
+                        text = text.replace('"%s"' % mu.group(1), '"%s"' % rng.choice(['meter_per_ms', 'liter_x', 'meters', 'centimeter', 'literal']))
                 respell = rng.random() < 0.15
                 t1 = L.to1x(text, ver, rng, respell_math=respell)
             o2, o1, os1 = real(text, None), real(t1, 'permissive'), real(t1, None)
@@ -88,7 +93,10 @@ def run(chk, replay=None):
             if strong:
                 oracle.append(('the permissive parser reports more than messages: ' + strong[0][:200], text, t1, ver)); continue
             if d1 != d2:
-                if respell and d1.replace('6d65746572', '6d65747265').replace('6c69746572', '6c69747265') == d2 and 'C14-math-respelling' in kf:
+                hx_ = lambda t_: t_.encode().hex()
+                def respelled_in_math(dd):
+                    return dd.replace(hx_('cellml:units="meter"'), hx_('cellml:units="metre"')).replace(hx_('cellml:units="liter"'), hx_('cellml:units="litre"'))
+                if respell and respelled_in_math(d1) == respelled_in_math(d2) and 'C14-math-respelling' in kf:
                     chk.known_finding(kf['C14-math-respelling']['what']); stats['known_math_respelling'] += 1
                 else:
                     dec = lambda x: re.sub(r'#([0-9a-f]*)', lambda m: repr(bytes.fromhex(m.group(1)).decode('utf-8', 'replace')), x)
